@@ -112,7 +112,10 @@ class FitResult(HoloPyObject):
             x = original_dims['x']
             y = original_dims['y']
             shape = (len(x), len(y))
-            spacing = (np.diff(x)[0], np.diff(y)[0])
+            # (only sizes the grid, x and y are assigned below; a one-row or
+            # one-column image has no difference to take)
+            spacing = (np.diff(x)[0] if len(x) > 1 else 1,
+                       np.diff(y)[0] if len(y) > 1 else 1)
             extra_dims = dict_without(original_dims, ['x', 'y', 'z'])
             schema = detector_grid(shape, spacing, extra_dims=extra_dims)
             schema = copy_metadata(self.data, schema, do_coords=False)
